@@ -140,6 +140,24 @@ def check(case, r, out):
         ii, gi, _ = tree_groups[k] if k < len(tree_groups) else (None, None, None)
         accepted = 0
         group_has_error = any(e.isa == ii and e.gs == gi for e in r.errors)
+        # ground truth of the workload: a stray segment inside the group but outside its sets, or a reader error on the GS/GE line
+        # itself, is an error inside the group although the engine files it on the interchange
+        doc = case['doc']
+        a0 = next(i_ for i_, s_ in enumerate(doc) if s_ is sg["gs"])
+        in_set = False
+        for s_ in doc[a0:]:
+            if s_ is not sg['gs'] and s_['id'] in ('GS', 'IEA', 'ISA'):
+                break
+            if s_['id'] == 'ST':
+                in_set = True
+            elif s_['id'] == 'SE':
+                in_set = False
+            elif s_['id'] == 'ZZZ' and not in_set:
+                group_has_error = True
+            if s_['id'] in ('GS', 'GE') and s_.get('reader_error'):
+                group_has_error = True
+            if s_['id'] == 'GE':
+                break
         for j, (ss, tx) in enumerate(zip(sg['sets'], ag['tx'])):
             want2 = [WL.val(ss['st'], 1), (WL.val(ss['st'], 2) or '').strip()]
             st3 = WL.val(ss['st'], 3)
